@@ -173,7 +173,11 @@ def judge(kind, cfg, obs, intr: Interrupts):
         try:
             if lab.is_cached(t):
                 r = t._lt.cache.load_result_with_meta(obs.storage, t)
-                if i in obs.ref.value and r.value != obs.ref.value[i]:
+                ok_vals = [obs.ref.value.get(i)]
+                if i in cfg.precached:
+                    from ..spec import stored_value
+                    ok_vals.append(stored_value(cfg.spec, i, None, 0))     # the entry that was being overwritten
+                if i in obs.ref.value and r.value not in ok_vals:
                     add('cache-inconsistent', f'node {i} is cached with a wrong value after the interrupt', two)
         except BaseException as e:  # noqa
             add('cache-inconsistent', f'node {i} is reported as cached but cannot be loaded ({type(e).__name__})', two)
@@ -249,12 +253,16 @@ def harnesses(tier):
     three = mk_spec(((), (), (0, 1)), types=('TA', 'TA', 'TA'))
     req3 = tuple((i, False) for i in range(3))
     out = [('serial', e2.Config(spec=chain, requested=req3), 0),
-           ('serial', e2.Config(spec=three, requested=((2, False),), precached=(0,)), 0)]
+           ('serial', e2.Config(spec=three, requested=((2, False),), precached=(0,)), 0),
+           # re-execution over existing entries: an interrupt in the middle of an overwrite
+           ('serial', e2.Config(spec=chain, requested=req3, precached=(0, 1, 2), bust_cache=True), 0)]
     dev = 1 if tier == 'quick' else 2
     for be in ('fork', 'spawn'):
         for mw in (1, 2):
             out.append((be, e3.E3Config(base=e2.Config(spec=chain, requested=req3), backend=be, max_workers=mw, liveness_choice=False), dev))
         out.append((be, e3.E3Config(base=e2.Config(spec=three, requested=((2, False),), precached=(0,)), backend=be, max_workers=2,
+                                    liveness_choice=False), dev))
+        out.append((be, e3.E3Config(base=e2.Config(spec=chain, requested=req3, precached=(0, 1, 2), bust_cache=True), backend=be, max_workers=2,
                                     liveness_choice=False), dev))
     return out
 
